@@ -467,6 +467,49 @@ def lift_int(x):
     return z3.IntVal(x) if isinstance(x, int) else x
 
 
+_COUNT = [None]
+COUNT_MASKS = {}          # id of a count term -> mask (so that np.zeros(len(x[mask])) stays tied to the mask)
+
+
+def count_term(ctx, mask):
+    """number of True entries of a boolean array: CountTrue(mask as a function, n) - uninterpreted, between 0 and n;
+    element-wise equal masks give the same term"""
+    if _COUNT[0] is None:
+        _COUNT[0] = z3.Function("CountTrue", z3.ArraySort(z3.IntSort(), z3.BoolSort()), z3.IntSort(), z3.IntSort())
+    k = z3.Int("k!mask")
+    body = as_bool(mask.elem(k))
+    if isinstance(body, bool):
+        body = z3.BoolVal(body)
+    t = _COUNT[0](z3.Lambda([k], body), lift_int(mask.n))
+    ctx.assume(z3.And(t >= 0, t <= lift_int(mask.n)))
+    COUNT_MASKS[t.get_id()] = (t, mask)
+    return t
+
+
+def mask_of_count(n):
+    """the mask whose count this length term is (None if it is not a count)"""
+    if is_z3(n):
+        r = COUNT_MASKS.get(n.get_id())
+        if r is not None and r[0].eq(n):
+            return r[1]
+    return None
+
+
+def masked_compare(ctx, op, a, b):
+    ms = [x for x in (a, b) if isinstance(x, MaskedSel)]
+    for x in (a, b):
+        if not isinstance(x, MaskedSel) and not is_scalar(x):
+            raise Unsupported("masked selection compared with %r" % (x,))
+    if len(ms) == 2 and not same_mask(ctx, ms[0].mask, ms[1].mask):
+        raise Unsupported("masked selections with different masks compared")
+    ua = a.arr if isinstance(a, MaskedSel) else a
+    ub = b.arr if isinstance(b, MaskedSel) else b
+    ea = ua.elem if isinstance(ua, SymArr) else (lambda i: ua)
+    eb = ub.elem if isinstance(ub, SymArr) else (lambda i: ub)
+    n = ms[0].arr.n
+    return MaskedSel(SymArr(n, lambda i: num_cmp(op, ea(i), eb(i)), "bool"), ms[0].mask)
+
+
 def masked_binop(ctx, op, a, b):
     """element-wise arithmetic on masked selections: every array operand must be a selection with the same mask"""
     ms = [x for x in (a, b) if isinstance(x, MaskedSel)]
@@ -488,6 +531,14 @@ def arr_setitem(ctx, a, idx, val, op=None):
         if isinstance(idx, int) and a.ndim == 1:
             i = norm_index(ctx, idx, a.shape[0])
             a.data[i] = comb(a.data[i], val)
+            return
+        if isinstance(idx, Vec) and idx.ndim == 1 and all(isinstance(k, int) and not isinstance(k, bool) for k in idx.data) \
+                and (idx.shape != a.shape or len(idx.data) == 0 or True):
+            # integer index array (fancy indexing)
+            for n_, k in enumerate(idx.data):
+                i = norm_index(ctx, k, a.shape[0])
+                v = val.data[n_] if isinstance(val, Vec) else val
+                a.data[i] = comb(a.data[i], v)
             return
         if isinstance(idx, Vec) and idx.shape == a.shape:       # boolean mask, possibly symbolic
             for k, m in enumerate(idx.data):
@@ -550,6 +601,16 @@ def arr_setitem(ctx, a, idx, val, op=None):
                 return
             if isinstance(val, SymArr):
                 raise Unsupported("mask assignment with array values on symbolic array")
+            a.elem = lambda i: z_ite(me(i), comb(old(i), val), old(i))
+            return
+        if type(idx).__name__ == "WhereIdx":
+            # a[np.where(mask)[0]] = scalar  ==  a[mask] = scalar
+            if not is_scalar(val):
+                raise Unsupported("index-set assignment with array values")
+            if not isinstance(idx.mask, SymArr):
+                raise Unsupported("index set of a masked selection applied to a plain array")
+            same_len(ctx, a.n, idx.mask.n)
+            me = idx.mask.elem
             a.elem = lambda i: z_ite(me(i), comb(old(i), val), old(i))
             return
         if is_scalar(idx):
